@@ -762,7 +762,7 @@ func buildWorker(meta *propMeta) {
 			continue
 		}
 		name := "worker"
-		args := []string{"build"}
+		args := append([]string{"build"}, modfileArgs()...)
 		if race {
 			name = "worker.race"
 			args = append(args, "-race")
